@@ -4,6 +4,7 @@
   (any deterministic user function: negative, zero, tied values included), `α` = job identity.
 -/
 import SchedVerif.Lemmas.Select
+import SchedVerif.Spec.Select
 import SchedVerif.Model.Sched
 namespace SV
 
@@ -144,6 +145,78 @@ theorem C05.calls (s : State) (clock : Int) (order raises : List Nat) (scripts :
     (execJobs s clock false order raises scripts).2.prioCalls =
       order.map (fun k => (k, lateness s (nowDT s.tz clock) k, s.maxExec, s.reg.length)) := by
   simp [execJobs, hp]
+
+theorem lookup_of_mem_nodup (l : List (Nat × Rat)) (hn : (l.map (·.1)).Nodup) (x : Nat × Rat) (hx : x ∈ l) :
+    l.lookup x.1 = some x.2 := by
+  induction l with
+  | nil => cases hx
+  | cons a as ih =>
+      simp only [List.map_cons, List.nodup_cons] at hn
+      rcases List.mem_cons.mp hx with rfl | h
+      · simp [List.lookup]
+      · have hne : ¬ (x.1 = a.1) := by
+          intro e; exact hn.1 (e ▸ List.mem_map_of_mem h)
+        have : (x.1 == a.1) = false := by simpa using hne
+        simp only [List.lookup, this]
+        exact ih hn.2 h
+
+theorem nodupB_iff (l : List Nat) : nodupB l = true ↔ l.Nodup := by
+  induction l with
+  | nil => simp [nodupB]
+  | cons x xs ih => simp [nodupB, ih, List.nodup_cons]
+
+theorem descB_of_pairwise (l : List Rat) (h : l.Pairwise (fun a b => b ≤ a)) : descB l = true := by
+  induction l with
+  | nil => rfl
+  | cons a as ih =>
+      cases as with
+      | nil => rfl
+      | cons b bs =>
+          rw [List.pairwise_cons] at h
+          simp only [descB, Bool.and_eq_true, decide_eq_true_eq]
+          exact ⟨h.1 b (by simp), ih h.2⟩
+
+/-- **the model's batch satisfies the Bool twin `c05SpecB`** that the driver evaluates on what the
+    implementation invoked: count, positivity, membership, no repetition, order, nothing better
+    left waiting — so the oracle accepts exactly behaviour of the kind the theorems above describe -/
+theorem C05.twin_sound (k : Nat) (l : List (Nat × Rat)) (hn : (l.map (·.1)).Nodup) :
+    c05SpecB k l ((selectBatch k l).map (·.1)) = true := by
+  have hnl : l.Nodup := by
+    have := List.Pairwise.of_map (f := fun (x : Nat × Rat) => x.1) (S := fun a b => a ≠ b) (R := fun a b => a ≠ b) (fun a b hab e => hab (by rw [e])) hn
+    exact this
+  have hsub := C05.subset k l
+  have hprio : ∀ x ∈ selectBatch k l, prioOfKey l x.1 = x.2 := by
+    intro x hx
+    simp [prioOfKey, lookup_of_mem_nodup l hn x (hsub x hx)]
+  unfold c05SpecB
+  simp only [Bool.and_eq_true, List.all_eq_true, List.any_eq_true, beq_iff_eq, decide_eq_true_eq, List.length_map]
+  refine ⟨⟨⟨⟨?_, ?_⟩, ?_⟩, ?_⟩, ?_⟩
+  · rw [C05.count]
+  · intro key hkey
+    obtain ⟨x, hx, rfl⟩ := List.mem_map.mp hkey
+    refine ⟨⟨x, hsub x hx, rfl⟩, ?_⟩
+    rw [hprio x hx]
+    exact C05.never_nonpositive k l x hx
+  · rw [nodupB_iff]
+    have hsl : ((selectBatch k l).map (·.1)).Sublist ((sortDesc l).map (·.1)) := (cut_sublist _ _).map _
+    have hp : ((sortDesc l).map (·.1)).Perm (l.map (·.1)) := (sortDesc_perm l).map _
+    exact (hp.nodup_iff.mpr hn).sublist hsl
+  · apply descB_of_pairwise
+    rw [List.map_map]
+    have : (selectBatch k l).map ((prioOfKey l) ∘ (·.1)) = (selectBatch k l).map (·.2) := by
+      apply List.map_congr_left
+      intro x hx; exact hprio x hx
+    rw [this, List.pairwise_map]
+    exact C05.sorted k l
+  · intro skey hs w hw
+    obtain ⟨sx, hsx, rfl⟩ := List.mem_map.mp hs
+    by_cases hin : w ∈ selectBatch k l
+    · rw [Bool.or_eq_true]; left
+      simp only [List.contains_eq_mem, List.mem_map, decide_eq_true_eq]
+      exact ⟨w, hin, rfl⟩
+    · rw [Bool.or_eq_true]; right
+      rw [hprio sx hsx]
+      simpa using C05.no_better_left_waiting k l hnl sx hsx w hw hin
 
 /-! non-vacuity: a table with ties, a zero and a negative entry is duplicate-free -/
 example : [((1:Nat), (1:Rat)), (2, 3), (3, 0), (4, 3), (5, -1)].Nodup := by simp
